@@ -1275,10 +1275,12 @@ fn check_spec_reserved_keys(key: &[u8], mut value: &[u8]) -> Result<(), Error> {
             Ipv6Addr::decode(&mut value)?;
         }
         b"secp256k1" => {
+            // the value is an RLP byte string holding a public key
+            let _pubkey_bytes = Bytes::decode(&mut value)?;
             #[cfg(all(feature = "k256", not(feature = "rust-secp256k1")))]
-            <Enr<k256::ecdsa::SigningKey>>::decode(&mut value)?;
+            <k256::ecdsa::SigningKey as EnrKeyUnambiguous>::decode_public(&_pubkey_bytes)?;
             #[cfg(feature = "rust-secp256k1")]
-            <Enr<secp256k1::SecretKey>>::decode(&mut value)?;
+            <secp256k1::SecretKey as EnrKeyUnambiguous>::decode_public(&_pubkey_bytes)?;
         }
         _ => return Ok(()),
     };
